@@ -12,13 +12,39 @@ import (
 	"strconv"
 	"strings"
 	"syscall"
+	"time"
 
 	"github.com/basekick-labs/arc/internal/compaction"
 	"github.com/basekick-labs/arc/internal/verifhook"
 	"github.com/basekick-labs/arc/internal/zzverif/vlib"
 )
 
+// slowClock installs a virtual clock that runs clockSlowdown times slower than the wall
+// clock, from an epoch shared by this process and every job child (environment
+// variable). Effect: all jobs of a case - in particular the two halves that
+// compactFilesAdaptively runs back to back from one candidate after a killed child - see
+// clock readings a few milliseconds apart, as they would on a machine that fast. Only
+// internal/compaction/job.go and manager.go read this clock (area.json "vclock"); they use
+// it for output / temp-dir names and manifest timestamps, nothing waits on it. Two readings
+// that are >= 1 microsecond apart on the wall clock stay distinct nanosecond values.
+const clockSlowdown = 128
+
+func slowClock() {
+	const env = "VERIF_C09_EPOCH"
+	var epoch time.Time
+	if v, err := strconv.ParseInt(os.Getenv(env), 10, 64); err == nil && v > 0 {
+		epoch = time.Unix(0, v)
+	} else {
+		epoch = time.Now()
+		os.Setenv(env, strconv.FormatInt(epoch.UnixNano(), 10))
+	}
+	verifhook.SetNow(func() time.Time {
+		return epoch.Add(time.Since(epoch) / clockSlowdown)
+	})
+}
+
 func main() {
+	slowClock()
 	// The real compaction manager re-executes the running binary as
 	// `<exe> compact --job-stdin` (cmd/arc/main.go:runCompactSubcommand). C09 drives
 	// real manager cycles, so this binary answers that sub-command the same way:
